@@ -27,13 +27,14 @@ Proof. vm_compute. split; reflexivity. Qed.
 Theorem parse_print_elided_value_refuted :
   rt_ok (s2l "SW1 1 2 SW1") = Some false /\ in_domain (s2l "SW1 1 2 SW1") = Some false.
 Proof. vm_compute. split; reflexivity. Qed.
-(* Cpt._netmake1:missing-keyword-of-first-rule *)
-Theorem parse_print_missing_keyword_refuted :
-  rt_ok (s2l "SP1 zz9 .a .b .c") = Some false /\ in_domain (s2l "SP1 zz9 .a .b .c") = Some false.
-Proof. vm_compute. split; reflexivity. Qed.
-(* Opts.format:def-list-printed-as-python-repr *)
-Theorem parse_print_opts_def_refuted :
-  rt_ok (s2l "R1 1 2 3; def={x,y}") = Some false /\ in_domain (s2l "R1 1 2 3; def={x,y}") = Some false.
+(* formerly open, now fixed in /repo (41fbd92, 48ede64): the unknown keyword is rejected, the def option reads back *)
+Theorem unknown_keyword_rejected :
+  match parse G st0 [] (s2l "SP1 zz9 .a .b .c") with Err EUnknownKw => true | _ => false end = true
+  /\ match parse G st0 [] (s2l "U1 foo") with Err EUnknownKw => true | _ => false end = true
+  /\ rt_ok (s2l "U1") = Some true.
+Proof. vm_compute. repeat split; reflexivity. Qed.
+Theorem opts_def_roundtrips :
+  rt_ok (s2l "R1 1 2 3; def={x,y}, l=a, def={z}") = Some true /\ in_domain (s2l "R1 1 2 3; def={x,y}, l=a, def={z}") = Some true.
 Proof. vm_compute. split; reflexivity. Qed.
 (* the same shapes one character away are inside the domain and round-trip *)
 Theorem parse_print_neighbours_hold :
